@@ -25,6 +25,9 @@ CONSTANTS MaxDo,        \* number of Do actions per behaviour
           AllowSelective,\* BOOLEAN
           AllowReopen,  \* BOOLEAN: Close/Reopen actions (C12)
           AllowSetLimit,\* BOOLEAN: the limit preference may change in mid-session
+          RootOnly,     \* names used at the top level only
+          ExclusivePairs, \* pairs of paths that are rendered to the same place on disk (a file and a folder
+                        \* of the same name): never present together
           AnyPairs,     \* BOOLEAN: two-leaf change sets need not be dependent
           IgnoredNames  \* file names matched by the project's ignored_resources: a change touching only
                         \* ignored resources is performed but not recorded (History._is_change_interesting)
@@ -149,7 +152,10 @@ Dropped(u)  == IF Len(u) > limit THEN Range(SubSeq(u, 1, Len(u) - limit)) ELSE {
 \* candidate change sets in the current tree
 \* ignored resources are only used at the top level: an unrecorded change that lives inside a folder a
 \* recorded change created or moved would depend on history it is not part of (outside the contract)
-IgnoredOK(p) == IF p = NoPath THEN TRUE ELSE (p[Len(p)] \in IgnoredNames => Len(p) = 1)
+IgnoredOK(p) == IF p = NoPath THEN TRUE
+                ELSE /\ (p[Len(p)] \in IgnoredNames => Len(p) = 1)
+                     /\ \A k \in 1..Len(p) : p[k] \in RootOnly => Len(p) = 1
+ExclusiveOK(t) == \A pq \in ExclusivePairs : ~(Present(t, pq[1]) /\ Present(t, pq[2]))
 KLeaves == { x \in AllLeaves : x.k \in LeafKinds /\ IgnoredOK(x.p) /\ IgnoredOK(x.q)
                               /\ (x.k = "MV" => (x.p[Len(x.p)] \notin IgnoredNames /\ x.q[Len(x.q)] \notin IgnoredNames)) }
 Singles == { <<l>> : l \in { x \in KLeaves : LeafEnabled(tree, x) } }
@@ -172,6 +178,7 @@ Do(ls) ==
          id == Len(chg) + 1
          u2 == IF Interesting(ls) THEN Append(undo, id) ELSE undo
      IN /\ t2 # Poison
+        /\ ExclusiveOK(t2)
         /\ tree' = t2
         /\ chg' = Append(chg, [leaves |-> ls, olds |-> CaptureOlds(tree, ls)])
         /\ undo' = Truncate(u2)
